@@ -38,16 +38,23 @@ func RegistPullStreamFactory(f PullStreamFactory) {
 	psFactories = append(psFactories, f)
 }
 
+// registLock 串行化注册表的“读后写”：两个流同时注册同一路径时，
+// 后写入者必须看到先写入者并将其淘汰，否则被覆盖的流既不在表中也不会被关闭
+var registLock sync.Mutex
+
 // Regist 注册流
 func Regist(s *Stream) {
+	registLock.Lock()
 	// 获取同 path 的现有流
 	oldSI, ok := streams.Load(s.path)
 	if s == oldSI { // 如果是同一个源
+		registLock.Unlock()
 		return
 	}
 
 	// 设置新流
 	streams.Store(s.path, s)
+	registLock.Unlock()
 
 	// 如果存在旧流
 	if ok {
@@ -67,6 +74,7 @@ func Unregist(s *Stream) {
 
 // unregist 取消注册（如果仍是该路径的当前流）并以指定状态关闭流
 func unregist(s *Stream, status int32) {
+	registLock.Lock()
 	si, ok := streams.Load(s.path)
 	if ok {
 		s2 := si.(*Stream)
@@ -74,6 +82,7 @@ func unregist(s *Stream, status int32) {
 			streams.Delete(s.path)
 		}
 	}
+	registLock.Unlock()
 	s.close(status)
 }
 
